@@ -1,5 +1,6 @@
 import CircusProofs.Props.C10
 import CircusProofs.Props.C15
+import CircusProofs.Core.OptionsCmd
 /-!
 # C11 — a request refused as invalid or conflicting changes nothing
 
@@ -30,6 +31,11 @@ Converse direction (whatever the reason, an error of the class means no effect):
 Frames: `C11_invalid_json_only_replies`, `C11_not_an_object_only_replies`,
 `C11_unknown_command_only_replies`, `C11_bad_properties_only_replies`, `C11_refused_only_replies`,
 `C11_refused_no_signal`, `C11_message_*_only_replies`, `C11_message_refusal_only_replies`.
+
+Observability of "the options exactly as they were": `C11_options_reply`, `C11_get_reply` (the answers of `options` /
+`get` are computed from the watcher's record alone), `C11_options_function_of_records`, `C11_refusal_same_options`,
+`C11_sameDaemon_same_options` (after a refusal every `options` / `get` request is answered as before),
+`C11_get_unknown_key_noop`, `C11_readonly_options_noop`, `C11_message_readonly_options_only_replies`.
 
 Known finding F4 (kept, not repaired): `set` applies its options one after the other at *execution*
 time; an option that passes `validate_option` but is refused by `Watcher.set_opt` (e.g. an unknown
@@ -720,7 +726,7 @@ def C11.keysOf (opts : List (String × JVal)) : List String :=
 
 def C11.setHookStep (u : Nat) (h : String × JVal) (err : Option Exc) : M (ForInStep (Option Exc)) :=
   if err.isNone = true then do
-    let r ← syncPlain "watcher_set_opt" (setOptBody u ("hooks." ++ h.1) h.2 true)
+    let r ← syncPlain "watcher_set_opt" (setOptBody u ("hooks." ++ h.1) h.2 false)
     match r with
       | .error e => pure (.yield (some e))
       | .ok _ => pure (.yield err)
@@ -733,7 +739,7 @@ def C11.setKeyStep (u : Nat) (opts : List (String × JVal)) (key : String) (st :
       match ((JVal.obj opts).get? key).getD .null with
       | .obj hs => do
         let e ← forIn hs st.2 (setHookStep u)
-        pure (.yield (st.1, e))
+        if (!hs.isEmpty) = true then pure (.yield (0, e)) else pure (.yield (st.1, e))
       | _ => pure (.yield (st.1, st.2))
     else do
       let r ← syncPlain "watcher_set_opt" (setOptBody u key (((JVal.obj opts).get? key).getD .null) false)
@@ -784,7 +790,9 @@ theorem C11.setKeyStep_busy (u : Nat) (opts : List (String × JVal)) (s : State)
         obtain ⟨e, he, hpe⟩ := forIn_fixed (fun e => e = none ∨ e = some Exc.conflict) s (setHookStep u)
           (fun a b hb' => setHookStep_busy u s hb a b hb') hs st.2 hp
         rw [bind_run, he]
-        exact ⟨_, rfl, hpe⟩
+        by_cases hem : (!hs.isEmpty) = true
+        · erw [if_pos hem]; exact ⟨_, rfl, hpe⟩
+        · erw [if_neg hem]; exact ⟨_, rfl, hpe⟩
       | _ => exact ⟨_, rfl, hp⟩
     · erw [if_neg hk]
       rw [bind_run, syncPlain_busy _ _ s hb]
@@ -913,20 +921,95 @@ theorem C11_incr_decr_singleton_noop (cmd : String) (hc : cmd = "incr" ∨ cmd =
     rw [veq_decr props s hr]
     rcases hnb with h | ⟨i, h⟩ <;> rw [h] <;> exact execIncrDecr_singleton _ props s u hk hs
 
-/-- **`add` while an exclusive command runs** (required properties present, options valid):
-    ConflictError before the watcher is even constructed -/
+/-- `AddWatcher.execute` after its endpoint-owner test -/
+def execAddTail (props : JVal) : M (R ExecRes) := do
+  let r ← syncPlain "arbiter_add_watcher" (addCore props)
+  match r with
+  | .error e => pure (.error e)
+  | .ok uid =>
+    if ((props.get? "start").map truthy).getD false then
+      let t ← syncCoroutine "watcher_start" (.pubStart uid) []
+      pure (t.map fun tid => .future tid "")
+    else pure (.ok (.value "-"))
+
+/-- the endpoint-owner test comes first: either it refuses (MessageError, nothing touched) or `add` goes on as without it -/
+theorem C11.execAdd_cases (props : JVal) (s : State) :
+    (ownerRefuses s.a.endpointOwner props = true ∧ execAdd props s = (.error .message, s)) ∨
+    (ownerRefuses s.a.endpointOwner props = false ∧ execAdd props s = execAddTail props s) := by
+  cases h : ownerRefuses s.a.endpointOwner props with
+  | true =>
+    refine .inl ⟨rfl, ?_⟩
+    unfold execAdd
+    rw [bind_run]
+    show (if ownerRefuses s.a.endpointOwner props = true then (pure (Except.error Exc.message) : M (R ExecRes))
+          else _) s = _
+    rw [ite_run, if_pos h]; rfl
+  | false =>
+    refine .inr ⟨rfl, ?_⟩
+    unfold execAdd
+    rw [bind_run]
+    show (if ownerRefuses s.a.endpointOwner props = true then (pure (Except.error Exc.message) : M (R ExecRes))
+          else _) s = _
+    rw [ite_run, if_neg (by simp [h])]; rfl
+
+/-- **`add` while an exclusive command runs** (required properties present, options valid, and — in endpoint-owner mode — the
+    `uid` of the endpoint owner, else the request fails that validation first): ConflictError before the watcher is even
+    constructed -/
 theorem C11_conflict_add_noop (props : JVal) (s : State) (hb : busy s) (hr : reqOk "add" props)
     (ho : props.get? "options" = none ∨
-          ∃ kvs, props.get? "options" = some (.obj kvs) ∧ (kvs.all fun kv => validateOption kv.1 kv.2) = true) :
+          ∃ kvs, props.get? "options" = some (.obj kvs) ∧ (kvs.all fun kv => validateOption kv.1 kv.2) = true)
+    (hown : ownerRefuses s.a.endpointOwner props = false) :
     validateExecute "add" props s = (.error .conflict, s) := by
   have key : execAdd props s = (.error .conflict, s) := by
-    unfold execAdd
+    rcases execAdd_cases props s with ⟨h, _⟩ | ⟨_, h⟩
+    · rw [hown] at h; cases h
+    rw [h]
+    unfold execAddTail
     rw [bind_run, syncPlain_busy _ _ s hb]
     rfl
   rw [veq_add props s hr]
   rcases ho with h | ⟨kvs, h, hall⟩
   · rw [h]; exact key
   · rw [h]; simp only; erw [if_pos hall]; exact key
+
+/-- **an `add` whose uid is not the endpoint owner, in endpoint-owner mode**: whatever else the request carries and whatever
+    the daemon is doing, the answer is a validation-class error (MessageError, errno 3) and the state is exactly what it
+    was — the watcher is not constructed, the slot is not even asked for. -/
+theorem C11_add_refused_by_endpoint_owner (props : JVal) (s : State)
+    (h : ownerRefuses s.a.endpointOwner props = true) :
+    ∃ e, validateExecute "add" props s = (.error e, s) := by
+  have key : execAdd props s = (.error .message, s) := by
+    rcases execAdd_cases props s with ⟨_, hc⟩ | ⟨h2, _⟩
+    · exact hc
+    · rw [h] at h2; cases h2
+  by_cases hr : reqOk "add" props
+  swap
+  · exact ⟨_, veq_req_fail _ _ _ hr⟩
+  rw [veq_add props s hr]
+  cases ho : props.get? "options" with
+  | none => exact ⟨_, key⟩
+  | some o =>
+    cases o with
+    | obj kvs =>
+      simp only
+      by_cases hall : (kvs.all fun kv => validateOption kv.1 kv.2) = true
+      · erw [if_pos hall]; exact ⟨_, key⟩
+      · erw [if_neg hall]; exact ⟨_, rfl⟩
+    | _ => exact ⟨_, rfl⟩
+
+/-- … and with valid properties it is exactly that error -/
+theorem C11_add_wrong_uid_is_message_error (props : JVal) (s : State) (hr : reqOk "add" props)
+    (kvs : List (String × JVal)) (ho : props.get? "options" = some (.obj kvs))
+    (hall : (kvs.all fun kv => validateOption kv.1 kv.2) = true)
+    (h : ownerRefuses s.a.endpointOwner props = true) :
+    validateExecute "add" props s = (.error .message, s) := by
+  have key : execAdd props s = (.error .message, s) := by
+    rcases execAdd_cases props s with ⟨_, hc⟩ | ⟨h2, _⟩
+    · exact hc
+    · rw [h] at h2; cases h2
+  rw [veq_add props s hr, ho]
+  simp only
+  erw [if_pos hall]; exact key
 
 /-- **`set` on an existing watcher while an exclusive command runs** (options valid): the first
     `set_opt` call is already refused, the remaining options are skipped, nothing is applied -/
@@ -1054,10 +1137,15 @@ theorem C11.execSet_busy_any (props : JVal) (s : State) (hb : busy s) : ∃ e, e
     rw [bind_run, h]; exact ⟨e, rfl⟩
   · exact ⟨_, execSet_busy props s u hb h⟩
 
-theorem C11.execAdd_busy_any (props : JVal) (s : State) (hb : busy s) : execAdd props s = (.error .conflict, s) := by
-  unfold execAdd
+theorem C11.execAddTail_busy (props : JVal) (s : State) (hb : busy s) : execAddTail props s = (.error .conflict, s) := by
+  unfold execAddTail
   rw [bind_run, syncPlain_busy _ _ s hb]
   rfl
+
+theorem C11.execAdd_busy_any (props : JVal) (s : State) (hb : busy s) : ∃ e, execAdd props s = (.error e, s) := by
+  rcases execAdd_cases props s with ⟨_, h⟩ | ⟨_, h⟩
+  · exact ⟨_, h⟩
+  · exact ⟨_, h.trans (execAddTail_busy props s hb)⟩
 
 theorem C11.execIncrDecr_busy_any (sign : Int) (props : JVal) (s : State) (hb : busy s) :
     (∃ e, execIncrDecr sign props s = (.error e, s)) ∨ (∃ body, execIncrDecr sign props s = (.ok (.value body), s)) := by
@@ -1117,13 +1205,13 @@ theorem C11_busy_refuses_noop (cmd : String)
   · exact ⟨_, C11_conflict_quit_noop props s hb⟩
   · rw [veq_add props s hr]
     cases props.get? "options" with
-    | none => exact ⟨_, execAdd_busy_any props s hb⟩
+    | none => exact execAdd_busy_any props s hb
     | some o =>
       cases o with
       | obj kvs =>
         simp only
         by_cases hall : (kvs.all fun kv => validateOption kv.1 kv.2) = true
-        · erw [if_pos hall]; exact ⟨_, execAdd_busy_any props s hb⟩
+        · erw [if_pos hall]; exact execAdd_busy_any props s hb
         · erw [if_neg hall]; exact ⟨_, rfl⟩
       | _ => exact ⟨_, rfl⟩
   · rw [veq_set props s hr]
@@ -1249,10 +1337,13 @@ theorem C11.syncPlain_free {α : Type} (name : String) (body : M (R α)) (s : St
 
 theorem C11.execAdd_error_noop (props : JVal) (s : State) (e : Exc) (h : (execAdd props s).1 = .error e) :
     (execAdd props s).2 = s := by
+  rcases execAdd_cases props s with ⟨_, hc⟩ | ⟨_, hc⟩
+  · rw [hc]
+  rw [hc] at h ⊢
   by_cases hb : busy s
-  · rw [execAdd_busy_any props s hb]
+  · rw [execAddTail_busy props s hb]
   · obtain ⟨h1, h2⟩ := (not_busy_iff s).mp hb
-    unfold execAdd at h ⊢
+    unfold execAddTail at h ⊢
     rw [bind_run] at h ⊢
     rw [syncPlain_free _ _ s hb] at h ⊢
     rcases addCore_cases props (setSlot (some "arbiter_add_watcher") s).2 with ⟨e1, hc⟩ | ⟨uid, s1, hc, hrs⟩
@@ -1302,8 +1393,11 @@ theorem C11_add_error_noop (props : JVal) (s : State) (e : Exc)
 theorem C11.execAdd_refused (props : JVal) (s : State)
     (h : ∃ e, (addCore props (setSlot (some "arbiter_add_watcher") s).2).1 = .error e) :
     ∃ e, execAdd props s = (.error e, s) := by
+  rcases execAdd_cases props s with ⟨_, hcs⟩ | ⟨_, hcs⟩
+  · exact ⟨_, hcs⟩
+  rw [hcs]
   by_cases hb : busy s
-  · exact ⟨_, execAdd_busy_any props s hb⟩
+  · exact ⟨_, execAddTail_busy props s hb⟩
   · obtain ⟨e, he⟩ := h
     have hc : addCore props (setSlot (some "arbiter_add_watcher") s).2 =
         (.error e, (setSlot (some "arbiter_add_watcher") s).2) := by
@@ -1311,7 +1405,7 @@ theorem C11.execAdd_refused (props : JVal) (s : State)
       · rw [hc] at he ⊢; simp only at he; rw [he]
       · rw [hc] at he; cases he
     refine ⟨e, ?_⟩
-    unfold execAdd
+    unfold execAddTail
     rw [bind_run, syncPlain_body_noop _ _ s hb _ hc]
     rfl
 
@@ -2106,6 +2200,11 @@ theorem C11.execReadOnly_errNoop (c : String) (hc : c ≠ "stats") (props : JVal
   · cases he
   · rfl
   · exact (hc rfl).elim
+  · exact execOptions_state props s
+  · exact execGet_state props s
+  · rfl
+  · rfl
+  · rfl
   · cases he
 
 theorem C11.veq_readonly_all (c : String)
@@ -2285,8 +2384,8 @@ theorem C11.setHookStep_free (u : Nat) (a0 : Arbiter) (hs : a0.slot = none) (hr 
   by_cases hn : err.isNone = true
   · erw [if_pos hn]
     rw [bind_run]
-    obtain ⟨h1, h2⟩ := syncSetOpt_free u ("hooks." ++ h.1) h.2 true s hb
-    generalize syncPlain "watcher_set_opt" (setOptBody u ("hooks." ++ h.1) h.2 true) s = r at h1 h2
+    obtain ⟨h1, h2⟩ := syncSetOpt_free u ("hooks." ++ h.1) h.2 false s hb
+    generalize syncPlain "watcher_set_opt" (setOptBody u ("hooks." ++ h.1) h.2 false) s = r at h1 h2
     obtain ⟨r, s1⟩ := r
     simp only at h1 h2
     rcases h2 with rfl | rfl
@@ -2312,7 +2411,9 @@ theorem C11.setKeyStep_free (u : Nat) (opts : List (String × JVal)) (a0 : Arbit
         rw [bind_run]
         obtain ⟨h1, h2⟩ := forIn_inv (fun s' => s'.a = a0) onlyValueError (setHookStep u)
           (fun a b s' hi' hp' => setHookStep_free u a0 hs hr a b s' hi' hp') hs' st.2 s hi hp
-        exact ⟨h1, _, rfl, h2⟩
+        by_cases hem : (!hs'.isEmpty) = true
+        · erw [if_pos hem]; exact ⟨h1, _, rfl, h2⟩
+        · erw [if_neg hem]; exact ⟨h1, _, rfl, h2⟩
       | _ => exact ⟨hi, _, rfl, hp⟩
     · erw [if_neg hk]
       rw [bind_run]
@@ -2551,6 +2652,125 @@ theorem C11_message_refusal_only_replies (cid : Option String) (msg : Option JVa
   simp only at he hs
   rw [he, hs]
 
+/-! ## 9. `options` / `get`: "the options exactly as they were" is observable
+
+The read-only commands `options` and `get` answer from the arbiter's name dict and the watcher's record and
+from nothing else; so a request that leaves the state as it was (`C11_refusal_noop`) or the daemon as it was
+(`sameDaemon`) is followed by the same `options` / `get` answers as it was preceded by. -/
+
+/-- **`options` reads the watcher record**: for a name that designates a registered watcher (in whatever letter
+    case), `validate`+`execute` of `options` answer `ok` with the body `optionsBody w` computed from that watcher's
+    record `w` alone (numprocesses, warmup_delay, graceful_timeout, stop_signal, stop_children, priority, respawn,
+    max_retry, max_age, singleton, on_demand, send_hup), and the state is identical — whatever the exclusive slot
+    holds, whatever is in flight. -/
+theorem C11_options_reply (props : JVal) (s : State) (n : String) (u : Nat)
+    (hn : props.get? "name" = some (.str n)) (hu : s.a.names.lookup (pyLower n) = some u) :
+    validateExecute "options" props s = (.ok (.value (optionsBody (getW u s).1)), s) := by
+  rw [validateExecute_options props s (has_of_get_some hn)]
+  exact execOptions_known props s n u hn hu
+
+/-- **`get` reads the watcher record**: for a registered watcher and the `keys` given, the answer is `getBody w keys`
+    — the named options out of the same record when every key is an option name, MessageError when one is not,
+    TypeError when `keys` is not iterable — and the state is identical. -/
+theorem C11_get_reply (props : JVal) (s : State) (n : String) (u : Nat) (keys : JVal)
+    (hn : props.get? "name" = some (.str n)) (hk : props.get? "keys" = some keys)
+    (hu : s.a.names.lookup (pyLower n) = some u) :
+    validateExecute "get" props s = (getBody (getW u s).1 keys, s) := by
+  rw [validateExecute_get props s (has_of_get_some hn) (has_of_get_some hk)]
+  rw [execGet_known props s n u hn hu, hk]
+  rfl
+
+/-- **a key that is no option name**: `get` with a list of keys one of which is not in `Watcher.optnames` (whatever its
+    type) is refused with MessageError and nothing changes -/
+theorem C11_get_unknown_key_noop (props : JVal) (s : State) (n : String) (u : Nat) (xs : List JVal) (x : JVal)
+    (hn : props.get? "name" = some (.str n)) (hk : props.get? "keys" = some (.arr xs))
+    (hu : s.a.names.lookup (pyLower n) = some u) (hx : x ∈ xs) (hbad : isOptName x = false) :
+    validateExecute "get" props s = (.error .message, s) := by
+  rw [C11_get_reply props s n u (.arr xs) hn hk hu]
+  have : xs.all isOptName = false := by
+    rw [List.all_eq_false]; exact ⟨x, hx, by simp [hbad]⟩
+  simp only [getBody, getKeyItems, this]
+  rfl
+
+/-- **the `options` / `get` answers are a function of the name dict and the watcher records only**: two states that
+    agree on these two components give the same answers to every `options` and every `get` request -/
+theorem C11_options_function_of_records (props : JVal) (s s' : State)
+    (hnames : s'.a.names = s.a.names) (hws : s'.ws = s.ws) :
+    (validateExecute "options" props s').1 = (validateExecute "options" props s).1 ∧
+    (validateExecute "get" props s').1 = (validateExecute "get" props s).1 := by
+  rw [validateExecute_options_eq, validateExecute_options_eq, validateExecute_get_eq, validateExecute_get_eq]
+  simp only [execOptions_fst_congr props s s' hnames hws, execGet_fst_congr props s s' hnames hws, and_self]
+
+/-- **after a refused request the options read as before**: for every registered command, if the request is answered
+    with a validation-class error, then every `options` and every `get` request is answered afterwards exactly as it
+    would have been answered before -/
+theorem C11_refusal_same_options (cmd : String) (hc : commandNames.contains cmd = true) (props : JVal) (s : State)
+    (e : Exc) (h : (validateExecute cmd props s).1 = .error e) (hr : e.isRefusal = true) (q : JVal) :
+    validateExecute "options" q (validateExecute cmd props s).2 = validateExecute "options" q s ∧
+    validateExecute "get" q (validateExecute cmd props s).2 = validateExecute "get" q s := by
+  rw [C11_refusal_noop cmd hc props s e h hr]
+  exact ⟨rfl, rfl⟩
+
+/-- … and at the level of frames: a daemon that is `sameDaemon` as before (what every refused frame leaves,
+    `C11_message_refusal_only_replies`) answers every `options` / `get` request as before -/
+theorem C11_sameDaemon_same_options {s s' : State} (h : sameDaemon s s') (q : JVal) :
+    (validateExecute "options" q s').1 = (validateExecute "options" q s).1 ∧
+    (validateExecute "get" q s').1 = (validateExecute "get" q s).1 := by
+  obtain ⟨_, hnames, hws, _, _⟩ := C11_sameDaemon_views h
+  exact C11_options_function_of_records q s s' hnames hws
+
+/-- the five commands added to the read-only executor change nothing at all, whatever they answer -/
+theorem C11_readonly_options_noop (cmd : String)
+    (hc : cmd ∈ ["options", "get", "globaloptions", "dstats", "listsockets"]) (props : JVal) (s : State) :
+    (validateExecute cmd props s).2 = s := by
+  by_cases hr : reqOk cmd props
+  swap
+  · rw [veq_req_fail _ _ _ hr]
+  simp only [List.mem_cons, List.mem_nil_iff, or_false] at hc
+  rcases hc with rfl | rfl | rfl | rfl | rfl
+  · rw [veq_readonly_all _ (by decide) props s hr]; exact execOptions_state props s
+  · rw [veq_readonly_all _ (by decide) props s hr]; exact execGet_state props s
+  · rw [veq_readonly_all _ (by decide) props s hr]; rfl
+  · rw [veq_readonly_all _ (by decide) props s hr]; rfl
+  · rw [veq_readonly_all _ (by decide) props s hr]; rfl
+
+theorem C11.readonly_options_ne_future (cmd : String)
+    (hc : cmd ∈ ["options", "get", "globaloptions", "dstats", "listsockets"]) (props : JVal) (s : State)
+    (tid : Nat) (x : String) : (validateExecute cmd props s).1 ≠ .ok (.future tid x) := by
+  by_cases hr : reqOk cmd props
+  swap
+  · rw [veq_req_fail _ _ _ hr]; intro h; cases h
+  simp only [List.mem_cons, List.mem_nil_iff, or_false] at hc
+  rcases hc with rfl | rfl | rfl | rfl | rfl
+  · rw [veq_readonly_all _ (by decide) props s hr]; exact execOptions_ne_future props s tid x
+  · rw [veq_readonly_all _ (by decide) props s hr]; exact execGet_ne_future props s tid x
+  · rw [veq_readonly_all _ (by decide) props s hr]; exact globalOptionsBody_ne_future props tid x
+  · rw [veq_readonly_all _ (by decide) props s hr]; intro h; cases h
+  · rw [veq_readonly_all _ (by decide) props s hr]; intro h; cases h
+
+/-- … **as frames**: a frame that carries `options`, `get`, `globaloptions`, `dstats` or `listsockets` (command name in
+    any letter case) — whatever its properties, whatever it is answered, whatever is in flight — leaves the daemon
+    exactly as it was, up to the one reply -/
+theorem C11_message_readonly_options_only_replies (cid : Option String) (j : JVal) (s : State) (name : String)
+    (hc : j.get? "command" = some (.str name))
+    (hcmd : pyLower name ∈ ["options", "get", "globaloptions", "dstats", "listsockets"]) :
+    sameDaemon s (handleMessage cid (some j) s).2 := by
+  have h1 := C11_readonly_options_noop (pyLower name) hcmd (propsOf j) (clearDone s).2
+  have h2 := readonly_options_ne_future (pyLower name) hcmd (propsOf j) (clearDone s).2
+  generalize hve : validateExecute (pyLower name) (propsOf j) (clearDone s).2 = ve at h1 h2
+  obtain ⟨r, s1⟩ := ve
+  simp only at h1 h2
+  subst h1
+  apply C11_quiet_only_replies cid j s name hc r hve
+  cases r with
+  | error e => trivial
+  | ok res =>
+    cases res with
+    | future tid x => exact absurd rfl (h2 tid x)
+    | value b => trivial
+    | statusPayload st => trivial
+    | unmodelled => trivial
+
 /-! ## non-vacuity: the hypotheses instantiated on concrete states and requests -/
 
 /-- three watchers (`a` stopped, `B` active with two workers, the singleton `solo`), a `stop`
@@ -2647,7 +2867,17 @@ example : validateExecute "incr" (.obj [("name", .str "solo")]) exBusy
   C11_incr_decr_singleton_noop "incr" (.inl rfl) _ _ 3 ⟨"solo", rfl, by decide +kernel⟩ (by decide +kernel) (.inl rfl)
 example : validateExecute "add" (.obj [("name", .str "new"), ("cmd", .str "sleep 1")]) exBusy
     = (.error .conflict, exBusy) :=
-  C11_conflict_add_noop _ _ (.inr (by decide +kernel)) (by decide +kernel) (.inl rfl)
+  C11_conflict_add_noop _ _ (.inr (by decide +kernel)) (by decide +kernel) (.inl rfl) rfl
+
+-- endpoint-owner mode: an `add` without the owner's uid, and one with another uid, are refused whatever the daemon does
+example : validateExecute "add" (.obj [("name", .str "new"), ("cmd", .str "sleep 1"), ("options", .obj [("uid", .str "nobody")])])
+      { exBusy with a := { exBusy.a with endpointOwner := some "root" } }
+    = (.error .message, { exBusy with a := { exBusy.a with endpointOwner := some "root" } }) :=
+  C11_add_wrong_uid_is_message_error _ _ (by decide +kernel) _ rfl (by decide +kernel) (by decide +kernel)
+example : ownerRefuses (some "root") (.obj [("name", .str "new"), ("cmd", .str "sleep 1")]) = true ∧
+    ownerRefuses (some "root") (.obj [("options", .obj [("uid", .int 0)])]) = true ∧
+    ownerRefuses (some "root") (.obj [("options", .obj [("uid", .str "root")])]) = false ∧
+    ownerRefuses none (.obj []) = false := by decide +kernel
 
 /-- 6. `add` of a name registered in another letter case, at rest: the slot is taken and released -/
 example : ∃ e, validateExecute "add" (.obj [("name", .str "b"), ("cmd", .str "sleep 1")]) exFree = (.error e, exFree) :=
@@ -2695,5 +2925,39 @@ example : (validateExecute "set" (.obj [("name", .str "NoSuch"), ("options", .ob
     (.obj [("name", .str "NoSuch"), ("options", .obj [("numprocesses", .int 2)])]) exFree
     (unknownWatcher_of_not_key _ _ (by decide +kernel))
   exact C11_refusal_noop "set" (by decide +kernel) _ _ e (by rw [he]) hr
+
+/-- 9. `options` / `get` while the `stop` holds the slot: answered from the record of `B` (asked for as `b`) -/
+example : (validateExecute "options" (.obj [("name", .str "b")]) exBusy).1 = .ok (.value
+    "options=graceful_timeout:300;max_age:0;max_retry:5;numprocesses:2;on_demand:false;priority:0;respawn:true;send_hup:false;singleton:false;stop_children:false;stop_signal:15;warmup_delay:0") := by
+  rw [C11_options_reply _ _ "b" 2 rfl (by decide +kernel)]
+  have : optionsBody (getW 2 exBusy).1 =
+      "options=graceful_timeout:300;max_age:0;max_retry:5;numprocesses:2;on_demand:false;priority:0;respawn:true;send_hup:false;singleton:false;stop_children:false;stop_signal:15;warmup_delay:0" := by
+    decide +kernel
+  simp only [this]
+def C11.okBody : R ExecRes → Option String
+  | .ok (.value b) => some b
+  | _ => none
+example : validateExecute "get" (.obj [("name", .str "solo"), ("keys", .arr [.str "singleton", .str "cmd", .str "numprocesses"])])
+    exBusy = (getBody (getW 3 exBusy).1 (.arr [.str "singleton", .str "cmd", .str "numprocesses"]), exBusy) :=
+  C11_get_reply _ _ "solo" 3 _ rfl rfl (by decide +kernel)
+example : okBody (getBody (getW 3 exBusy).1 (.arr [.str "singleton", .str "cmd", .str "numprocesses"]))
+    = some "options=numprocesses:1;singleton:true" := by
+  decide +kernel
+example : validateExecute "get" (.obj [("name", .str "a"), ("keys", .arr [.str "numprocesses", .str "autostart"])]) exBusy
+    = (.error .message, exBusy) :=
+  C11_get_unknown_key_noop _ _ "a" 1 _ (.str "autostart") rfl rfl (by decide +kernel) (by simp) (by decide +kernel)
+example : (validateExecute "get" (.obj [("name", .str "a"), ("keys", .null)]) exFree).1 = .error (.other "TypeError") := by
+  rw [C11_get_reply _ _ "a" 1 _ rfl rfl (by decide +kernel)]
+  rfl
+example : sameDaemon exBusy (handleMessage (some "c1") (some (.obj [("id", .int 4), ("command", .str "get"),
+      ("properties", .obj [("name", .str "b"), ("keys", .arr [.str "nosuch"])])])) exBusy).2 :=
+  C11_message_readonly_options_only_replies _ _ _ "get" rfl (by decide +kernel)
+/-- the refusal of the `stop` above is followed by the same `options` answer -/
+example : validateExecute "options" (.obj [("name", .str "B")])
+      (validateExecute "stop" (.obj [("name", .str "B"), ("match", .str "simple")]) exBusy).2
+    = validateExecute "options" (.obj [("name", .str "B")]) exBusy :=
+  (C11_refusal_same_options "stop" (by decide +kernel) _ _ .conflict
+    (by rw [C11_conflict_start_stop_restart_simple "stop" (.inr (.inl rfl)) _ _ 2 (.inr (by decide +kernel))
+          ⟨"B", rfl, by decide +kernel⟩ rfl]) rfl _).1
 
 end Circus.Core
